@@ -444,7 +444,7 @@ func (s *Seq) runBlock(txOps []*Op, H uint64) {
 	if s.failed {
 		// continue from the state the node is in: it becomes the new baseline ("any registry state"),
 		// unless it is inconsistent in itself (then every later block would only repeat the report)
-		if len(s.taint) > 0 {
+		if len(s.taint) > 0 && os.Getenv("VERIF_C20_CONTINUE") == "" { // (the variable is for manual analysis of a witness only)
 			s.dead = true
 			return
 		}
@@ -452,7 +452,7 @@ func (s *Seq) runBlock(txOps []*Op, H uint64) {
 		s.failed, s.quiet = false, true
 		s.judge(post, post, H)
 		s.quiet, s.fails = false, nil
-		if s.failed {
+		if s.failed && os.Getenv("VERIF_C20_CONTINUE") == "" {
 			s.dead = true
 		}
 		s.failed = false
